@@ -242,7 +242,9 @@ class ABNF:
             raise ValueError("not 0 or 1")
         if self.opcode not in ABNF.OPCODES:
             raise ValueError("Invalid OPCODE")
-        length = len(self.data)
+        # a str payload goes out as its UTF-8 bytes (the object keeps what it was given)
+        data = self.data.encode("utf-8") if isinstance(self.data, str) else self.data
+        length = len(data)
         if length >= ABNF.LENGTH_63:
             raise ValueError("data is too long")
 
@@ -263,14 +265,12 @@ class ABNF:
             frame_header += struct.pack("!Q", length)
 
         if not self.mask_value:
-            if isinstance(self.data, str):
-                self.data = self.data.encode("utf-8")
-            return frame_header + self.data
+            return frame_header + data
         mask_key = self.get_mask_key(4)
-        return frame_header + self._get_masked(mask_key)
+        return frame_header + self._get_masked(mask_key, data)
 
-    def _get_masked(self, mask_key: Union[str, bytes]) -> bytes:
-        s = ABNF.mask(mask_key, self.data)
+    def _get_masked(self, mask_key: Union[str, bytes], data=None) -> bytes:
+        s = ABNF.mask(mask_key, self.data if data is None else data)
 
         if isinstance(mask_key, str):
             # the same four bytes mask() has just used (one character = one byte)
